@@ -430,10 +430,7 @@ class Circuit:
                 ll.reader_pin = 0
             ll.reader.ins[ll.reader_pin] = ll
         for l, ll in zip(impl_out_lines, node_out_lines):  # connect outputs
-            if ll is None:
-                if l.driver in node_map:
-                    self.remove_dangling_nodes(node_map[l.driver])
-                continue
+            if ll is None: continue
             if len(l.reader.outs) > 0:  # output is also read by impl. circuit, connect to fork.
                 ll.driver = node_map[l.reader]
                 ll.driver_pin = len(l.reader.outs)
@@ -441,6 +438,9 @@ class Circuit:
                 ll.driver = node_map[l.driver]
                 ll.driver_pin = l.driver_pin
             ll.driver.outs[ll.driver_pin] = ll
+        for l, ll in zip(impl_out_lines, node_out_lines):  # prune logic of unconnected outputs after all others are attached
+            if ll is None and l.driver in node_map:
+                self.remove_dangling_nodes(node_map[l.driver])
 
     def resolve_tlib_cells(self, tlib):
         """Substitute all technology library cells with kyupy native simulation primitives.
